@@ -26,7 +26,7 @@ LEVEL_NOTE = ("each listener function is registered on at most one target at a t
               "not generated); retval/asyncio options not generated; pre-emption only at traced line boundaries of event/attr.py, "
               "event/base.py, event/registry.py, util/langhelpers.py, pool/base.py, pool/impl.py, util/queue.py")
 TIERS = {
-    "quick": {"runs": 5000, "secs": 30},
+    "quick": {"runs": 16000, "secs": 35},
     "thorough": {"runs": 400000, "secs": 480, "hashseeds": [0, 1]},
 }
 SHRINK = ["prog", "switches"]
@@ -77,24 +77,46 @@ def gen_case(rng, tier):
 
 
 def gen_hist(rng):
+    # swarm: per-history op mix, target bias, size of the function pool, number of events
+    w = {k: rng.choice([0, 1, 2, 4]) for k in ("remove", "relisten", "contains", "mkclass", "mkinst", "derive", "joindispatch")}
+    w["listen"] = rng.choice([2, 4, 6])
+    w["dispatch"] = rng.choice([2, 4, 6])
+    ops = [k for k, n in w.items() for _ in range(n)]
+    ibias = rng.choice([0.1, 0.5, 0.9])
+    nf = rng.choice([2, 4, 16])
+    nev = rng.choice([1, 2])
+    pflag = rng.choice([0.1, 0.3, 0.6])
+    oflag = rng.choice([0.0, 0.1, 0.3])
     n = rng.randint(5, 30)
-    prog = []
+    prog = [["mkinst", rng.randrange(64)]] if rng.random() < 0.7 else []
+
+    def tgt():
+        return ["i" if rng.random() < ibias else "c", rng.randrange(64)]
     for _ in range(n):
-        r = rng.random()
-        if r < 0.34:
-            prog.append(["listen", rng.randrange(64), rng.randrange(2), rng.randrange(16),
-                         {"insert": rng.random() < 0.3, "propagate": rng.random() < 0.3, "once": rng.random() < 0.2,
-                          "named": rng.random() < 0.2}])
-        elif r < 0.46:
+        k = rng.choice(ops)
+        if k == "listen":
+            prog.append(["listen", tgt(), rng.randrange(nev), rng.randrange(nf),
+                         {"insert": rng.random() < 0.3, "propagate": rng.random() < pflag, "once": rng.random() < oflag,
+                          "named": rng.random() < oflag}])
+        elif k == "remove":
             prog.append(["remove", rng.randrange(64)])
-        elif r < 0.54:
-            prog.append(["contains", rng.randrange(64), rng.randrange(2), rng.randrange(16)])
-        elif r < 0.62:
+        elif k == "relisten":
+            prog.append(["relisten", rng.randrange(64), {"insert": rng.random() < 0.3, "propagate": rng.random() < pflag,
+                                                         "once": rng.random() < oflag}])
+        elif k == "contains":
+            prog.append(["contains", tgt(), rng.randrange(nev), rng.randrange(nf)])
+        elif k == "mkclass":
             prog.append(["mkclass", rng.randrange(64)])
-        elif r < 0.72:
+        elif k == "mkinst":
             prog.append(["mkinst", rng.randrange(64)])
+        elif k == "derive":
+            prog.append(["derive", rng.randrange(64), rng.randrange(2)])
+            if rng.random() < 0.6:
+                prog.append(["dispatch", -1, rng.randrange(nev)])
+        elif k == "joindispatch":
+            prog.append(["joindispatch", rng.randrange(64), rng.randrange(64), rng.randrange(nev)])
         else:
-            prog.append(["dispatch", rng.randrange(64), rng.randrange(2)])
+            prog.append(["dispatch", -1 if rng.random() < 0.3 else rng.randrange(64), rng.randrange(nev)])
     return {"kind": "hist", "prog": prog, "switches": None}
 
 
@@ -133,10 +155,11 @@ def run_case(case):
 # ----------------------------------------------------------------------------- hist: reference model
 
 class Reg:
-    __slots__ = ("fid", "target", "ev", "once", "named", "fired", "removed", "insert")
+    __slots__ = ("fid", "target", "ev", "once", "named", "fired", "removed", "insert", "propagate")
 
-    def __init__(self, fid, target, ev, once, named, insert):
+    def __init__(self, fid, target, ev, once, named, insert, propagate=False):
         self.fid, self.target, self.ev, self.once, self.named, self.insert = fid, target, ev, once, named, insert
+        self.propagate = propagate
         self.fired = False
         self.removed = False
 
@@ -177,6 +200,7 @@ def run_hist(case):
     cls_list = {ev: {i: [] for i in range(len(classes))} for ev in EVS}   # class idx -> [Reg] in call order
     inst_list = {ev: {} for ev in EVS}                                    # inst idx -> [Reg]
     live = {}                                                              # fid -> Reg
+    removed = []
     fns = {}
 
     def fn_for(fid, named, ev):
@@ -207,27 +231,39 @@ def run_hist(case):
         return False
 
     def resolve_target(t):
-        """target index -> ('c', class idx) or ('i', inst idx)"""
-        n = len(classes) + len(insts)
-        t = t % n
-        if t < len(classes):
-            return ("c", t)
-        return ("i", t - len(classes))
+        """["c"|"i", k] -> ('c', class idx) or ('i', inst idx); falls back to a class while no instance exists"""
+        tk, k = t
+        if tk == "i" and insts:
+            return ("i", k % len(insts))
+        return ("c", k % len(classes))
 
     try:
         for i, op in enumerate(case["prog"]):
             kind = op[0]
             out = None
+            if kind == "relisten":
+                # the same function registered again on the same target after a removal, with other options
+                cand = [r for r in removed if r.fid not in live]
+                if not cand:
+                    out = "skip"
+                    trace.append([i, kind, out])
+                    continue
+                old = cand[op[1] % len(cand)]
+                op = ["listen", None, EVS.index(old.ev), old.fid, dict(op[2], named=old.named)]
+                kind = "listen"
+                forced_target = old.target
+            else:
+                forced_target = None
             if kind == "listen":
                 _, t, evi, fid, o = op
                 ev = EVS[evi]
                 if fid in live:
                     out = "skip-live"
                 else:
-                    tk, ti = resolve_target(t)
+                    tk, ti = forced_target if forced_target is not None else resolve_target(t)
                     named = bool(o["named"])
                     f = fn_for(fid, named, ev)
-                    reg = Reg(fid, (tk, ti), ev, bool(o["once"]), named, bool(o["insert"]))
+                    reg = Reg(fid, (tk, ti), ev, bool(o["once"]), named, bool(o["insert"]), bool(o["propagate"]))
                     tgt = classes[ti] if tk == "c" else insts[ti][0]
                     event.listen(tgt, ev, f, insert=o["insert"], propagate=o["propagate"], once=o["once"], named=o["named"])
                     live[fid] = reg
@@ -255,11 +291,14 @@ def run_hist(case):
                     tgt = classes[ti] if tk == "c" else insts[ti][0]
                     event.remove(tgt, reg.ev, fn_for(fid, reg.named, reg.ev))
                     reg.removed = True
+                    removed.append(reg)
                     if tk == "c":
                         for ci in subclasses_of(ti):
                             cls_list[reg.ev][ci] = [r for r in cls_list[reg.ev][ci] if r is not reg]
                     else:
-                        inst_list[reg.ev][ti] = [r for r in inst_list[reg.ev][ti] if r is not reg]
+                        # derived targets (dispatch._update) share the registration: removal reaches them too
+                        for k2 in list(inst_list[reg.ev]):
+                            inst_list[reg.ev][k2] = [r for r in inst_list[reg.ev][k2] if r is not reg]
                     out = "ok"
             elif kind == "contains":
                 _, t, evi, fid = op
@@ -292,11 +331,57 @@ def run_hist(case):
                     ci = op[1] % len(classes)
                     insts.append((classes[ci](), ci))
                     out = "ok"
+            elif kind == "derive":
+                # new target populated from an existing one, as Pool.recreate() / Column._copy() / mapper inheritance do
+                if not insts or len(insts) >= 8:
+                    out = "skip"
+                else:
+                    oi = op[1] % len(insts)
+                    old, ci = insts[oi]
+                    new = classes[ci]()
+                    only_prop = bool(op[2])
+                    new.dispatch._update(old.dispatch, only_propagate=only_prop)
+                    insts.append((new, ci))
+                    ni = len(insts) - 1
+                    for ev in EVS:
+                        src = inst_list[ev].get(oi, [])
+                        cp = [r for r in src if (not only_prop) or r.propagate]
+                        if cp:
+                            inst_list[ev][ni] = cp
+                    out = "ok"
+                    bump("probe:derived_target")
+            elif kind == "joindispatch":
+                if len(insts) < 2:
+                    out = "skip"
+                else:
+                    ai, bi = op[1] % len(insts), op[2] % len(insts)
+                    ev = EVS[op[3]]
+                    args = (i,) if ev == "e0" else (i, -i)
+                    jd = insts[ai][0].dispatch._join(insts[bi][0].dispatch)
+                    del calls[:]
+                    getattr(jd, ev)(*args)
+                    got = list(calls)
+                    want = []
+                    for reg in (cls_list[ev][insts[ai][1]] + inst_list[ev].get(ai, [])
+                                + cls_list[ev][insts[bi][1]] + inst_list[ev].get(bi, [])):
+                        if reg.once:
+                            if reg.fired:
+                                continue
+                            reg.fired = True
+                        if reg.named:
+                            want.append((reg.fid, tuple(sorted(zip(ARGN[ev], args)))))
+                        else:
+                            want.append((reg.fid, args))
+                    out = [g[0] for g in got]
+                    bump("probe:joined_dispatch")
+                    if got != want:
+                        V("dispatch_wrong_listeners", "joined dispatch called listeners %s, registered (model) %s"
+                          % ([g[0] for g in got], [w[0] for w in want]), op=i)
             elif kind == "dispatch":
                 if not insts:
                     ci = op[1] % len(classes)
                     insts.append((classes[ci](), ci))
-                ii = op[1] % len(insts)
+                ii = (len(insts) - 1) if op[1] < 0 else op[1] % len(insts)
                 obj, ci = insts[ii]
                 ev = EVS[op[2]]
                 args = (i,) if ev == "e0" else (i, -i)
